@@ -1,6 +1,7 @@
 import Proofs.Lemmas.Emit
 import Proofs.Lemmas.EmitObl
 import Proofs.Lemmas.EmitOrder
+import Proofs.Lemmas.EmitQuote
 import Generated.C16CompileNodes
 /-!
 # C16 — ahead-of-time compilation preserves behaviour (compiled = interpreted)
@@ -179,6 +180,111 @@ example : (rebuildKeyed (emitBy (sortStrings ["owner", "id", "balance"])
   decide
 
 end order
+
+
+/-! ### scalar payloads: the value a scalar field carries through Go source text -/
+
+section scalar
+open Model.EmitQuote Proofs.EmitQuote
+
+/-- **`unquote (quote s) = s` for every byte string**: whatever bytes a string-valued AST field holds
+(newlines, tabs, back quotes, backslashes, quotes, `$`, NUL and other control bytes, invalid UTF-8,
+multi-byte and non-printable runes, any length) and whatever the table of printable runes, the text
+`%q` prints is a Go string literal whose value is exactly those bytes. -/
+theorem C16_scalar_string_roundtrip (pr : Nat → Bool) (s : List UInt8) :
+    unquote (quote pr (s.map UInt8.toNat)) = some (s.map UInt8.toNat) :=
+  unquote_quote pr _ (by
+    intro b hb
+    obtain ⟨x, _, rfl⟩ := List.mem_map.mp hb
+    exact x.toNat_lt)
+
+/-- the same for a list of byte values -/
+theorem C16_scalar_string_roundtrip_nat (pr : Nat → Bool) (s : Bytes) (hs : ∀ b ∈ s, b < 256) :
+    unquote (quote pr s) = some s := unquote_quote pr s hs
+
+/-- **The printer cannot change a quoted scalar.** `Generator.printf` indents every non-empty line of
+what it prints; the quoted text contains no newline (`\n` is written as an escape), so at every
+indentation level the buffer receives the tabs followed by the literal unchanged, and the value the
+generated program holds is the field's value — at top level, in a function, a method, a closure, any
+nesting depth. -/
+theorem C16_scalar_printf_safe (pr : Nat → Bool) (k : Nat) (s : Bytes) (hs : ∀ b ∈ s, b < 256) :
+    printedValue k (quote pr s) = some s := by
+  unfold printedValue
+  rw [printfOut_no_nl k _ (quote_no_nl pr s hs) (by simp [quote]), dropTabs_tabs k _ (by simp [quote])]
+  exact unquote_quote pr s hs
+
+/-- the quoted text never contains a newline -/
+theorem C16_scalar_quote_one_line (pr : Nat → Bool) (s : Bytes) (hs : ∀ b ∈ s, b < 256) : 10 ∉ quote pr s :=
+  quote_no_nl pr s hs
+
+/-- a raw literal is read verbatim (carriage returns removed): right as long as the TEXT is the value -/
+theorem C16_scalar_raw_literal_verbatim (s : Bytes) (h : 96 ∉ s) : unquote (rawLit s) = some (s.filter (· ≠ 13)) := by
+  unfold rawLit unquote
+  simp only [show ¬ ((96 : Nat) = 34) by omega, if_false, if_true]
+  exact unqRaw_append s h
+
+/-- **Negation witness for the raw form** (the seeded change `C16-raw-string-literal-indent`): a text of
+three lines written as a raw literal through the same printer at indentation 2 (a top-level statement)
+reads back with two tabs in front of lines 2 and 3 — the program builds and carries another string;
+at indentation 5 with five. Values with fewer than two newlines were still quoted, hence unaffected. -/
+theorem C16_scalar_raw_indent_counterexample :
+    printedValue 2 (rawLit [97, 10, 98, 10, 99]) = some [97, 10, 9, 9, 98, 10, 9, 9, 99] ∧
+    printedValue 5 (rawLit [97, 10, 98, 10, 99]) = some [97, 10, 9, 9, 9, 9, 9, 98, 10, 9, 9, 9, 9, 9, 99] ∧
+    printedValue 2 (rawLit [97, 10, 98, 10]) = some [97, 10, 9, 9, 98, 10, 9, 9] ∧
+    printedValue 0 (rawLit [97, 10, 98, 10, 99]) = some [97, 10, 98, 10, 99] := by decide
+
+/-- `%d` reads back exactly, for every integer (Go constants are exact; the range is the field type's) -/
+theorem C16_scalar_int_roundtrip (i : Int) : readInt (showInt i) = some i := readInt_showInt i
+
+theorem C16_scalar_bool_roundtrip (b : Bool) : readBool (showBool b) = some b := readBool_showBool b
+
+/-- **Floats, as far as the model carries them** (sign, zero, non-finite; the digits of a non-zero finite
+magnitude are opaque and trusted to read back): with `goFloatLiteral` every float reads back as itself. -/
+theorem C16_scalar_float_roundtrip (v : FloatV) (h : v.wf) : evalFloat (showFloat true v) = some v := by
+  cases v with
+  | fin neg mag =>
+    cases neg
+    · exact (evalFloat_mag mag h).1
+    · exact (evalFloat_mag mag h).2
+  | zero neg => cases neg <;> decide
+  | inf neg => cases neg <;> decide
+  | nan => decide
+
+/-- Full statement for plain `%g` (the tree before fix C16-float-negative-zero):
+`∀ v, v.wf → evalFloat (showFloat false v) = some v` — false. `_partial`: it holds for every finite value
+other than negative zero. -/
+theorem C16_scalar_float_roundtrip_partial (v : FloatV) (h : v.wf)
+    (hz : v ≠ .zero true) (hi : ∀ n, v ≠ .inf n) (hn : v ≠ .nan) : evalFloat (showFloat false v) = some v := by
+  cases v with
+  | fin neg mag =>
+    cases neg
+    · exact (evalFloat_mag mag h).1
+    · exact (evalFloat_mag mag h).2
+  | zero neg =>
+    cases neg
+    · decide
+    · exact absurd rfl hz
+  | inf neg => exact absurd rfl (hi neg)
+  | nan => exact absurd rfl hn
+
+/-- negation witness: `-0` is the integer constant 0 negated — the compiled program holds +0 where the
+parser built -0.0; `+Inf`, `-Inf`, `NaN` are not Go expressions at all -/
+theorem C16_scalar_float_neg_zero_counterexample :
+    evalFloat (showFloat false (.zero true)) = some (.zero false) ∧
+    evalFloat (showFloat false (.inf false)) = none ∧ evalFloat (showFloat false .nan) = none := by decide
+
+/-! non-vacuity -/
+example : quote (fun _ => true) [112, 10, 96, 92, 34, 0, 255, 195, 169] =
+    [34, 112, 92, 110, 96, 92, 92, 92, 34, 92, 120, 48, 48, 92, 120, 102, 102, 195, 169, 34] := by decide
+example : quote (fun _ => false) [226, 128, 168] = [34, 92, 117, 50, 48, 50, 56, 34] := by decide
+example : unquote [34, 92, 117, 50, 48, 50, 56, 92, 49, 48, 49, 92, 120, 52, 49, 34] = some [226, 128, 168, 65, 65] := by decide
+example : unquote [34, 97, 10, 98, 34] = none := by decide          -- a newline inside an interpreted literal
+example : unquote [34, 255, 34] = none := by decide                 -- invalid UTF-8 in the source
+example : showInt (-9223372036854775808) = [45, 57, 50, 50, 51, 51, 55, 50, 48, 51, 54, 56, 53, 52, 55, 55, 53, 56, 48, 56] := by decide
+example : magOk [53, 101, 45, 51, 50, 52] := by decide   -- 5e-324
+example : evalFloat (showFloat true (.fin true [53, 101, 45, 51, 50, 52])) = some (.fin true [53, 101, 45, 51, 50, 52]) := by decide
+
+end scalar
 
 /-- **Round trip.** For every table and every tree: if `Emit` produces text, evaluating that text
 yields exactly the tree `erase` describes — every field that is neither skipped by tag nor unread
